@@ -131,6 +131,10 @@ def gen_wk(r, tier):
         "run a ; run b ; fin err ; run c ; fin ok ; discard d ; run e ; run f ; dfin ; run g ; fin err ; run h ; fin ok",
         "discard a ; run b ; discard c ; fin ok ; discard d ; dfin ; discard e ; run f ; fin ok ; run g",
         "run a ; fin ok ; run b ; discard c ; dfin ; dfin ; run d ; run e ; fin ok",
+        # the context of a waiting call is cancelled (BS.WorkerTask.cancel_breaks_one_holder: outside the theorems, inside the model)
+        "run a ; run b ; cancel b ; fin ok ; run c",
+        "run a ; fin ok ; discard b ; run c ; cancel c ; dfin ; run d ; fin ok",
+        "run a ; run b ; run c ; cancel c ; fin err ; run d ; fin ok",
     ]
     for c in directed:
         yield c
@@ -138,18 +142,25 @@ def gen_wk(r, tier):
     for _ in range(n):
         ops, k = [], 0
         execing, discarding, st_ok = False, False, False
+        waiting = []
         for _ in range(r.rng(2, 12)):
             x = r.below(100)
+            if waiting and x < 6 and (execing or discarding):
+                # cancel a waiting call; the cases stop there (what a second, concurrent execution does is the scheduler's choice)
+                ops.append("cancel " + waiting[r.below(len(waiting))])
+                break
             name = "abcdefghijklmnop"[k % 16]
             if execing and x < 40:
                 o = r.choice(["ok", "ok", "err"])
-                ops.append("fin " + o); execing = False; st_ok = o == "ok"
+                ops.append("fin " + o); execing = False; st_ok = o == "ok"; waiting = []
             elif discarding and x < 40:
-                ops.append("dfin"); discarding = False; st_ok = False
+                ops.append("dfin"); discarding = False; st_ok = False; waiting = []
             elif x < 70:
                 ops.append("run " + name); k += 1
                 if not execing and not discarding and not st_ok:
                     execing = True
+                elif execing or discarding:
+                    waiting.append(name)
             elif x < 92:
                 ops.append("discard " + name); k += 1
                 if st_ok and not execing and not discarding:
